@@ -6,16 +6,31 @@ import (
 	"bytes"
 	"compress/lzw"
 	"compress/zlib"
+	stdascii85 "encoding/ascii85"
 	"fmt"
 	"golang.org/x/image/ccitt"
+	tifflzw "golang.org/x/image/tiff/lzw"
 	"io"
+	"math"
+	"math/rand"
+	"os"
+	"os/exec"
+	"runtime"
+	"strconv"
 	"strings"
 	"testing"
+	"testing/iotest"
 	"time"
 
 	"seehuhn.de/go/membudget"
 	"seehuhn.de/go/pdf/internal/limits"
 )
+
+func c06Seed() int64 {
+	seed := int64(1)
+	fmt.Sscanf(os.Getenv("VERIF_SEED"), "%d", &seed)
+	return seed
+}
 
 type c06Sink struct{ bytes.Buffer }
 
@@ -197,7 +212,96 @@ func TestB2C06RoundTrip(t *testing.T) {
 			}
 		}
 	}
+	// long periodic inputs (see c06LongInputs): the dictionary coders reach their longest entries,
+	// the table-full clear code and their largest pending output only here
+	type longCase struct {
+		f Filter
+		v Version
+	}
+	longFilters := []longCase{{FilterLZW{}, V1_7}, {FilterLZW{OffByOne: true}, V1_7}, {FilterCompress{}, V1_1}, {FilterCompress{}, V1_7},
+		{FilterLZW{Predictor: FlatePredictorPNGUp, Colors: 1, BitsPerComponent: 8, Columns: 512, OffByOne: true}, V1_7}, {FilterLZW{Predictor: FlatePredictorTIFF, Colors: 3, BitsPerComponent: 8, Columns: 256}, V1_7},
+		{FilterFlate{}, V1_7}, {FilterRunLength{}, V1_7}}
+	readChunks := []int{0}
+	if b2Thorough() {
+		readChunks = []int{0, 1021, 1 << 16}
+	}
+	for di, data := range c06LongInputs(c06Seed(), b2Thorough()) {
+		for fi, lc := range longFilters {
+			f, v := lc.f, lc.v
+			name, parms, err := f.Info(v)
+			if err != nil {
+				t.Errorf("B2-FAIL info %T%+v v=%v: %v", f, f, v, err)
+				continue
+			}
+			f2, err := MakeFilter(name, parms)
+			if err != nil {
+				t.Errorf("B2-FAIL makefilter %T%+v v=%v: %v", f, f, v, err)
+				continue
+			}
+			d := data[:len(data)/c06RowBytes(f)*c06RowBytes(f)]
+			wchunk := 1 << 15
+			if (di+fi)%4 == 0 {
+				wchunk = 0
+			}
+			enc, err := c06Encode(f, v, d, wchunk)
+			if err != nil {
+				t.Errorf("B2-FAIL encode %T%+v v=%v long#%d len=%d: %v", f, f, v, di, len(d), err)
+				continue
+			}
+			for _, chunk := range readChunks {
+				cases++
+				dec, err := c06Decode(f2, v, enc, chunk)
+				if err != nil || !bytes.Equal(dec, d) {
+					t.Errorf("B2-FAIL roundtrip %T%+v v=%v long#%d len=%d chunk=%d: got %d bytes, first difference at %d, err=%v", f, f, v, di, len(d), chunk, len(dec), c06FirstDiff(dec, d), err)
+				}
+			}
+		}
+	}
 	t.Logf("B2-CASES %d", cases)
+}
+
+func c06FirstDiff(a, b []byte) int {
+	n := min(len(a), len(b))
+	for i := 0; i < n; i++ {
+		if a[i] != b[i] {
+			return i
+		}
+	}
+	if len(a) != len(b) {
+		return n
+	}
+	return -1
+}
+
+// c06LongInputs returns inputs of 8 to 9 MiB with a short period.  On such data an LZW dictionary entry
+// is one byte longer than the one before, so that a 4096-entry table ends with entries of about 3840
+// bytes after roughly 7.4 MiB (no shorter input gets there), the table fills up and is cleared, and
+// the decoder's pending output is as large as it can become.
+func c06LongInputs(seed int64, thorough bool) [][]byte {
+	rng := rand.New(rand.NewSource(seed))
+	n := 8<<20 + rng.Intn(1<<20)
+	b := byte(rng.Intn(256))
+	noise := make([]byte, 1<<16)
+	rng.Read(noise)
+	periodic := func(p int) []byte {
+		d := make([]byte, n+p)
+		for i := range d {
+			d[i] = b + byte(i%p)*37
+		}
+		return d
+	}
+	// one byte repeated; period 2; a run, noise, and the same run again (codes of every length
+	// meet a partially filled output buffer)
+	out := [][]byte{periodic(1), periodic(2)}
+	mixed := periodic(1)
+	for off := 1 << 20; off+len(noise) < len(mixed); off += 5<<19 + rng.Intn(1<<16) {
+		copy(mixed[off:], noise[:1+rng.Intn(len(noise))])
+	}
+	out = append(out, mixed)
+	if thorough {
+		out = append(out, periodic(3), periodic(255), periodic(256), periodic(1+rng.Intn(4000)))
+	}
+	return out
 }
 
 // ---- C07: independent codecs written from the standards ----
@@ -463,6 +567,10 @@ func TestB2C07Independent(t *testing.T) {
 		check("runlength", FilterRunLength{}, refRunLengthDecode)
 		check("lzw-early1", FilterLZW{OffByOne: true}, func(b []byte) ([]byte, error) { return refLZWDecode(b, 1) })
 		check("lzw-early0", FilterLZW{}, func(b []byte) ([]byte, error) { return refLZWDecode(b, 0) })
+		// TIFF's LZW is the variant with the early width change
+		check("lzw-early1-tiff", FilterLZW{OffByOne: true}, func(b []byte) ([]byte, error) {
+			return io.ReadAll(tifflzw.NewReader(bytes.NewReader(b), tifflzw.MSB, 8))
+		})
 		check("flate", FilterFlate{}, func(b []byte) ([]byte, error) {
 			r, err := zlib.NewReader(bytes.NewReader(b))
 			if err != nil {
@@ -492,11 +600,15 @@ func TestB2C07Independent(t *testing.T) {
 			}
 		}
 		// independent encoder -> library decoder
+		// the caller of the library's decoder may read with any buffer size, and the encoded data may
+		// arrive in pieces of any size
 		back := func(name string, f Filter, enc []byte) {
-			cases++
-			got, err := c06Decode(f, v, enc, 0)
-			if err != nil || !bytes.Equal(got, data) {
-				t.Errorf("B2-FAIL independent-encoder-%s len=%d: %d bytes, err=%v", name, len(data), len(got), err)
+			for _, mode := range c07ReadModes {
+				cases++
+				got, err := c07Decode(f, v, enc, mode)
+				if err != nil || !bytes.Equal(got, data) {
+					t.Errorf("B2-FAIL independent-encoder-%s len=%d read=%d src=%d: %d bytes, err=%v", name, len(data), mode.read, mode.src, len(got), err)
+				}
 			}
 		}
 		// upper-case hex with white space everywhere
@@ -540,6 +652,10 @@ func TestB2C07Independent(t *testing.T) {
 		}
 		a85.WriteString("~>")
 		back("ascii85", FilterASCII85{}, a85.Bytes())
+		// Go's encoding/ascii85 (no white space, z for zero groups) followed by the PDF end marker
+		std85 := make([]byte, stdascii85.MaxEncodedLen(len(data)))
+		std85 = std85[:stdascii85.Encode(std85, data)]
+		back("ascii85-std", FilterASCII85{}, append(std85, '~', '>'))
 		// RunLength: alternate packet kinds, maximal runs
 		var rl bytes.Buffer
 		for off := 0; off < len(data); {
@@ -610,7 +726,89 @@ func TestB2C07Independent(t *testing.T) {
 			}
 		}
 	}
+	// LZW on long periodic inputs (longest dictionary entries, full table), both directions
+	for di, data := range c06LongInputs(c06Seed(), b2Thorough()) {
+		for early, f := range []Filter{FilterLZW{}, FilterLZW{OffByOne: true}} {
+			cases++
+			enc, err := c06Encode(f, v, data, 1<<15)
+			if err != nil {
+				t.Errorf("B2-FAIL encode-lzw-early%d long#%d: %v", early, di, err)
+				continue
+			}
+			got, err := refLZWDecode(enc, early)
+			if err != nil || !bytes.Equal(got, data) {
+				t.Errorf("B2-FAIL independent-decoder-lzw-early%d long#%d len=%d: %d bytes, err=%v", early, di, len(data), len(got), err)
+			}
+		}
+		cases++
+		var lz bytes.Buffer
+		lw := lzw.NewWriter(&lz, lzw.MSB, 8)
+		lw.Write(data)
+		lw.Close()
+		got, err := c06Decode(FilterLZW{}, v, lz.Bytes(), 0)
+		if err != nil || !bytes.Equal(got, data) {
+			t.Errorf("B2-FAIL independent-encoder-lzw-early0 long#%d len=%d: %d bytes, first difference at %d, err=%v", di, len(data), len(got), c06FirstDiff(got, data), err)
+		}
+	}
 	t.Logf("B2-CASES %d", cases)
+}
+
+// c07ReadMode: size of the caller's read buffer (0: io.ReadAll) and of the pieces in which the
+// encoded data reaches the decoder (0: all at once, 1: one byte per Read, n: at most n bytes).
+type c07ReadMode struct{ read, src int }
+
+var c07ReadModes = []c07ReadMode{{0, 0}, {1, 0}, {2, 0}, {3, 0}, {5, 0}, {7, 0}, {0, 1}, {1, 1}, {3, 5}, {4, 3}}
+
+type c07PieceReader struct {
+	r io.Reader
+	n int
+}
+
+func (p *c07PieceReader) Read(b []byte) (int, error) {
+	if len(b) > p.n {
+		b = b[:p.n]
+	}
+	return p.r.Read(b)
+}
+
+func c07Decode(f Filter, v Version, enc []byte, mode c07ReadMode) ([]byte, error) {
+	var src io.Reader = bytes.NewReader(enc)
+	switch {
+	case mode.src == 1:
+		src = iotest.OneByteReader(src)
+	case mode.src > 1:
+		src = &c07PieceReader{src, mode.src}
+	}
+	budget := membudget.New(limits.StreamBudget(int64(len(enc))))
+	r, err := f.Decode(v, src, budget)
+	if err != nil {
+		return nil, err
+	}
+	defer r.Close()
+	if mode.read <= 0 {
+		return io.ReadAll(r)
+	}
+	var out []byte
+	buf := make([]byte, mode.read)
+	for idle := 0; idle < 100; {
+		n, err := r.Read(buf)
+		out = append(out, buf[:n]...)
+		if err == io.EOF {
+			return out, nil
+		}
+		if err != nil {
+			return out, err
+		}
+		if n == 0 {
+			idle++
+		} else {
+			idle = 0
+		}
+		if len(out) > 1<<24 {
+			return out, fmt.Errorf("runaway output")
+		}
+	}
+	return out, fmt.Errorf("100 reads without data or error")
 }
 
 // ---- CCITTFax (C06 round trip, C07 against golang.org/x/image/ccitt) ----
@@ -707,36 +905,67 @@ func TestB2C06CCITT(t *testing.T) {
 
 func TestB2C07CCITT(t *testing.T) {
 	cases := 0
+	encode := func(f FilterCCITTFax, data []byte) (enc []byte, err error) {
+		defer func() {
+			if r := recover(); r != nil {
+				err = fmt.Errorf("panic: %v", r)
+			}
+		}()
+		return c06Encode(f, V1_7, data, 0)
+	}
 	for _, img := range c06CCITTImages() {
 		var data []byte
 		for _, runs := range img.rows {
 			data = append(data, c06CCITTRow(img.width, runs...)...)
 		}
+		// the complementary image: every pixel bit flipped, the padding bits of each row kept
+		inv := make([]byte, len(data))
+		rowBytes := (img.width + 7) / 8
+		for i := range data {
+			inv[i] = ^data[i]
+			if i%rowBytes == rowBytes-1 && img.width%8 != 0 {
+				inv[i] &= 0xff << (8 - img.width%8)
+			}
+		}
 		for _, k := range []int{0, -1} {
-			cases++
-			f := FilterCCITTFax{K: k, Columns: img.width, EndOfLine: k == 0}
-			sf := ccitt.Group4
-			if k == 0 {
-				sf = ccitt.Group3 // x/image expects EOL codes in Group 3 data
-			}
-			var enc []byte
-			var err error
-			func() {
-				defer func() {
-					if r := recover(); r != nil {
-						err = fmt.Errorf("panic: %v", r)
+			// Group 3 one-dimensional with EOL codes (the form x/image reads) and Group 4; either
+			// pixel polarity; rows starting on byte boundaries (Group 4 only: for Group 3, T.4 aligns
+			// the end of the EOL code, PDF the start of the row)
+			for _, blackIs1 := range []bool{false, true} {
+				for _, align := range []bool{false, true} {
+					if align && k == 0 {
+						continue
 					}
-				}()
-				enc, err = c06Encode(f, V1_7, data, 0)
-			}()
-			if err != nil {
-				t.Errorf("B2-FAIL encode-ccitt %s K=%d: %v", img.name, k, err)
-				continue
-			}
-			r := ccitt.NewReader(bytes.NewReader(enc), ccitt.MSB, sf, img.width, len(img.rows), nil)
-			got, err := io.ReadAll(r)
-			if err != nil || !bytes.Equal(got, data) {
-				t.Errorf("B2-FAIL independent-decoder-ccitt %s K=%d: %d bytes, want %d, err=%v", img.name, k, len(got), len(data), err)
+					cases++
+					f := FilterCCITTFax{K: k, Columns: img.width, EndOfLine: k == 0, BlackIs1: blackIs1, EncodedByteAlign: align}
+					desc := fmt.Sprintf("%s K=%d BlackIs1=%v Align=%v", img.name, k, blackIs1, align)
+					sf := ccitt.Group4
+					if k == 0 {
+						sf = ccitt.Group3 // x/image expects EOL codes in Group 3 data
+					}
+					enc, err := encode(f, data)
+					if err != nil {
+						t.Errorf("B2-FAIL encode-ccitt %s: %v", desc, err)
+						continue
+					}
+					// x/image: without Invert a 0 bit is black (the PDF default), with Invert a 1 bit
+					r := ccitt.NewReader(bytes.NewReader(enc), ccitt.MSB, sf, img.width, len(img.rows), &ccitt.Options{Invert: blackIs1, Align: align})
+					got, err := io.ReadAll(r)
+					if err != nil || !bytes.Equal(got, data) {
+						t.Errorf("B2-FAIL independent-decoder-ccitt %s: %d bytes, want %d, first difference at %d, err=%v", desc, len(got), len(data), c06FirstDiff(got, data), err)
+					}
+					// BlackIs1 only says which bit value is black (ISO 32000 table 11): the code stream of
+					// an image is that of the complementary bits under the opposite setting
+					if blackIs1 {
+						f0 := f
+						f0.BlackIs1 = false
+						cases++
+						enc0, err := encode(f0, inv)
+						if err != nil || !bytes.Equal(enc0, enc) {
+							t.Errorf("B2-FAIL ccitt-polarity %s: code stream differs from that of the complementary image with BlackIs1=false (%d and %d bytes, first difference at %d, err=%v)", desc, len(enc), len(enc0), c06FirstDiff(enc, enc0), err)
+						}
+					}
+				}
 			}
 		}
 	}
@@ -750,8 +979,91 @@ type c08Getter struct{ meta MetaInfo }
 func (g *c08Getter) GetMeta() *MetaInfo                  { return &g.meta }
 func (g *c08Getter) Get(Reference, bool) (Native, error) { return nil, nil }
 
+// c08DocBudget is the per-stream budget as documented (internal/limits, StreamBudget): 8 MiB plus
+// 1024 bytes per byte of raw data, the proportional part capped at 256 MiB.
+func c08DocBudget(rawLen int64) int64 {
+	if rawLen < 0 {
+		rawLen = 0
+	}
+	if rawLen > (256<<20)/1024 {
+		return 8<<20 + 256<<20
+	}
+	return 8<<20 + 1024*rawLen
+}
+
+type c08Result struct {
+	fails    []string // violations of C08, "<kind> <details>"
+	produced int64
+	err      error
+	excess   float64 // bytes allocated (less twice the output) relative to the documented budget
+}
+
+// c08Check builds the decoder for a stream dictionary and body through DecodeStream, reads it to the end
+// (at most 64 MiB) and closes it.  Violations: a panic, an error that is not a malformed-file error,
+// 64 MiB of output or more, more than 3 s for less than 4 MiB of output, and more bytes allocated
+// (runtime.MemStats.TotalAlloc) than the documented budget for the raw length plus twice the output.
+func c08Check(desc string, sd Dict, body []byte) (res c08Result) {
+	fail := func(kind string, format string, args ...any) {
+		res.fails = append(res.fails, strings.Join(strings.Fields(kind+" "+desc+": "+fmt.Sprintf(format, args...)), " "))
+	}
+	var m0, m1 runtime.MemStats
+	runtime.ReadMemStats(&m0)
+	started := time.Now()
+	func() {
+		defer func() {
+			if r := recover(); r != nil {
+				fail("panic", "%v", r)
+				res.err = fmt.Errorf("panic: %v", r)
+			}
+		}()
+		stm := &Stream{Dict: sd, data: bytes.NewReader(body), length: int64(len(body))}
+		r, err := DecodeStream(&c08Getter{meta: MetaInfo{Version: V1_7}}, nil, stm)
+		if err != nil {
+			res.err = err
+			if !IsMalformed(err) {
+				fail("error-class", "%v", b2ShortErr(err))
+			}
+			return
+		}
+		n, err := io.Copy(io.Discard, io.LimitReader(r, 1<<26))
+		res.produced, res.err = n, err
+		if n >= 1<<26 {
+			fail("unbounded-output", "%d bytes and more", n)
+		}
+		if err != nil && !IsMalformed(err) {
+			fail("error-class", "%v", b2ShortErr(err))
+		}
+		r.Close() // the error of Close is not classified by the property
+	}()
+	// time bound for decodes that produce little output (large images legitimately take longer, and
+	// the machine may be loaded)
+	if el := time.Since(started); el > 3*time.Second && res.produced < 4<<20 {
+		fail("slow", "%v", el)
+	}
+	runtime.ReadMemStats(&m1)
+	alloc := int64(m1.TotalAlloc-m0.TotalAlloc) - 2*res.produced
+	budget := c08DocBudget(int64(len(body)))
+	res.excess = float64(alloc) / float64(budget)
+	if alloc > budget+1<<20 {
+		fail("alloc", "%d bytes allocated, %d produced, documented budget %d", m1.TotalAlloc-m0.TotalAlloc, res.produced, budget)
+	}
+	return res
+}
+
+// c08Goroutines: helper goroutines of closed readers must be gone (they finish asynchronously).
+func c08Goroutines(t *testing.T, before int) {
+	for i := 0; i < 40 && runtime.NumGoroutine() > before; i++ {
+		time.Sleep(50 * time.Millisecond)
+	}
+	if n := runtime.NumGoroutine(); n > before {
+		t.Errorf("B2-FAIL goroutine-leak %d goroutines before, %d after all readers were closed", before, n)
+	}
+}
+
 func TestB2C08Hostile(t *testing.T) {
 	cases := 0
+	worst := 0.0
+	goroutines := runtime.NumGoroutine()
 	names := []Name{"ASCII85Decode", "ASCIIHexDecode", "RunLengthDecode", "FlateDecode", "LZWDecode", "CCITTFaxDecode", "DCTDecode", "JBIG2Decode"}
 	dicts := []Dict{nil, {}, {"Predictor": Integer(12), "Columns": Integer(4)}, {"Predictor": Integer(2), "Columns": Integer(3), "Colors": Integer(3), "BitsPerComponent": Integer(4)},
 		{"Predictor": Integer(15), "Columns": Integer(1 << 30), "Colors": Integer(1 << 20), "BitsPerComponent": Integer(16)}, {"Columns": Integer(-1), "Rows": Integer(-5), "K": Integer(-1)},
@@ -843,47 +1155,542 @@ func TestB2C08Hostile(t *testing.T) {
 				}
 				continue
 			}
+			_ = f
 			for bi, body := range bodies {
 				if !b2Thorough() && bi%2 == 1 && len(body) < 4000 {
 					continue
 				}
 				cases++
-				started := time.Now()
-				produced := int64(0)
-				func() {
-					defer func() {
-						if r := recover(); r != nil {
-							t.Errorf("B2-FAIL panic %s %s body#%d: %v", name, AsString(d), bi, r)
-						}
-						// time bound for decodes that produce little output (large images legitimately
-						// take longer, and the machine may be loaded)
-						if el := time.Since(started); el > 3*time.Second && produced < 4<<20 {
-							t.Errorf("B2-FAIL slow %s %s body#%d (%d bytes): %v", name, AsString(d), bi, len(body), el)
-						}
-					}()
-					stm := &Stream{Dict: Dict{"Filter": name}, data: bytes.NewReader(body), length: int64(len(body))}
-					if d != nil {
-						stm.Dict["DecodeParms"] = d
-					}
-					_ = f
-					r, err := DecodeStream(&c08Getter{meta: MetaInfo{Version: V1_7}}, nil, stm)
-					if err != nil {
-						if !IsMalformed(err) {
-							t.Errorf("B2-FAIL error-class %s %s body#%d: %v", name, AsString(d), bi, err)
-						}
-						return
-					}
-					n, err := io.Copy(io.Discard, io.LimitReader(r, 1<<26))
-					produced = n
-					if n >= 1<<26 {
-						t.Errorf("B2-FAIL unbounded-output %s %s body#%d", name, AsString(d), bi)
-					}
-					if err != nil && !IsMalformed(err) {
-						t.Errorf("B2-FAIL error-class %s %s body#%d: %v", name, AsString(d), bi, err)
-					}
-				}()
+				sd := Dict{"Filter": name}
+				if d != nil {
+					sd["DecodeParms"] = d
+				}
+				res := c08Check(fmt.Sprintf("%s %s body#%d (%d bytes)", name, AsString(d), bi, len(body)), sd, body)
+				for _, f := range res.fails {
+					t.Errorf("B2-FAIL %s", f)
+				}
+				worst = max(worst, res.excess)
 			}
 		}
 	}
+	c08Goroutines(t, goroutines)
+	t.Logf("largest allocation relative to the documented budget: %.3f", worst)
 	t.Logf("B2-CASES %d", cases)
+}
+
+// ---- C08: filter chains up to and beyond the cap of eight entries; /Filter and /DecodeParms of any type ----
+
+func TestB2C08Chains(t *testing.T) {
+	cases := 0
+	goroutines := runtime.NumGoroutine()
+	g := &c08Getter{meta: MetaInfo{Version: V1_7}}
+	data := c02Data(300, 0)
+	cycles := [][]Filter{
+		{FilterASCIIHex{}},
+		{FilterASCIIHex{}, FilterASCII85{}, FilterRunLength{}, FilterFlate{}, FilterLZW{OffByOne: true}},
+		{FilterFlate{}, FilterLZW{}},
+		{FilterRunLength{}, FilterFlate{Predictor: FlatePredictorPNGUp, Columns: 4}},
+	}
+	lengths := []int{0, 1, 2, 3, 4, 5, 6, 7, 8, 9, 10, 11, 12, 15, 16, 17, 31, 32, 33, 100, 1000}
+	for ci, cycle := range cycles {
+		for _, n := range lengths {
+			names, own, dicts := make(Array, n), make(Array, n), make(Array, n)
+			chain := make([]Filter, n)
+			plain := true
+			for i := range chain {
+				chain[i] = cycle[i%len(cycle)]
+				name, parms, err := chain[i].Info(V1_7)
+				if err != nil {
+					t.Fatalf("Info: %v", err)
+				}
+				names[i], dicts[i] = name, Dict{}
+				if parms != nil {
+					own[i], dicts[i] = parms, parms
+					plain = false
+				}
+			}
+			// the body: the data encoded by the last 12 filters at most (a longer chain must be refused
+			// before anything is read)
+			body := data
+			for i := n - 1; i >= max(0, n-12); i-- {
+				enc, err := c06Encode(chain[i], V1_7, body, 0)
+				if err != nil {
+					t.Fatalf("encode: %v", err)
+				}
+				body = enc
+			}
+			var sds []Dict
+			sds = append(sds, Dict{"Filter": names, "DecodeParms": own}, Dict{"Filter": names, "DecodeParms": dicts})
+			if plain {
+				sds = append(sds, Dict{"Filter": names}, Dict{"Filter": names, "DecodeParms": own[:n/2]})
+			} else if own[n-1] == nil {
+				sds = append(sds, Dict{"Filter": names, "DecodeParms": own[:n-1]})
+			}
+			if n == 1 {
+				sds = append(sds, Dict{"Filter": names[0], "DecodeParms": own[0]})
+			}
+			for si, sd := range sds {
+				cases++
+				desc := fmt.Sprintf("cycle#%d length %d dict#%d", ci, n, si)
+				fs, err := GetFilters(g, nil, sd)
+				switch {
+				case n <= 8 && (err != nil || len(fs) != n):
+					t.Errorf("B2-FAIL chain-decode %s: GetFilters gives %d filters, err=%v", desc, len(fs), b2ShortErr(err))
+				case n > 8 && err == nil:
+					t.Errorf("B2-FAIL chain-cap %s: GetFilters accepts %d filters, the cap is 8", desc, len(fs))
+				case n > 8 && !IsMalformed(err):
+					t.Errorf("B2-FAIL error-class %s: GetFilters: %v", desc, b2ShortErr(err))
+				}
+				var got []byte
+				stm := &Stream{Dict: sd, data: bytes.NewReader(body), length: int64(len(body))}
+				r, err := DecodeStream(g, nil, stm)
+				if err == nil {
+					got, err = io.ReadAll(io.LimitReader(r, 1<<24))
+					r.Close()
+					if n > 8 {
+						t.Errorf("B2-FAIL chain-cap %s: DecodeStream builds %d decoders (%d bytes read, err=%v), the cap is 8", desc, n, len(got), b2ShortErr(err))
+						continue
+					}
+				}
+				switch {
+				case n <= 8 && (err != nil || !bytes.Equal(got, data)):
+					t.Errorf("B2-FAIL chain-decode %s: %d bytes, want %d, err=%v", desc, len(got), len(data), b2ShortErr(err))
+				case n > 8 && !IsMalformed(err):
+					t.Errorf("B2-FAIL error-class %s: DecodeStream: %v", desc, b2ShortErr(err))
+				}
+			}
+			// damaged bodies under chains of every admissible length
+			if n >= 2 && n <= 8 {
+				sd := Dict{"Filter": names, "DecodeParms": own}
+				var hostile [][]byte
+				for _, cut := range []int{0, 1, len(body) / 2, len(body) - 1} {
+					hostile = append(hostile, body[:cut])
+				}
+				for k := 0; k < len(body); k += 1 + len(body)/12 {
+					m := append([]byte{}, body...)
+					m[k] ^= 0x5a
+					hostile = append(hostile, m)
+				}
+				for hi, hb := range hostile {
+					cases++
+					res := c08Check(fmt.Sprintf("cycle#%d length %d damaged#%d", ci, n, hi), sd, hb)
+					for _, f := range res.fails {
+						t.Errorf("B2-FAIL %s", f)
+					}
+				}
+			}
+		}
+	}
+	// /Filter and /DecodeParms of any type
+	skipped := 0
+	hexBody := []byte("48656C6C6F>")
+	odd := []Object{Integer(5), Real(1.5), Boolean(true), String("x"), Name("ASCIIHexDecode"), Array{}, Array{Integer(1)}, Array{nil, nil}, Array{Dict{}, Dict{}, Dict{}}, Array{String("y"), Name("z")},
+		Dict{}, Dict{"Predictor": Integer(12)}, Array{Array{Dict{}}}, Reference(0), NewReference(7, 0)}
+	filters := []Object{nil, Name("ASCIIHexDecode"), Name("FlateDecode"), Name("NoSuchFilter"), Name(""), Array{Name("ASCIIHexDecode")}, Array{Name("ASCIIHexDecode"), Name("ASCIIHexDecode")},
+		Integer(3), String("ASCIIHexDecode"), Dict{}, Array{Integer(1)}, Array{String("ASCIIHexDecode")}, Array{Array{Name("ASCIIHexDecode")}}, Array{nil}, Array{Name("ASCIIHexDecode"), nil}, Array{Dict{}},
+		Array{Name("ASCIIHexDecode"), Name("NoSuchFilter")}, Array{Name("Crypt")}, Array{Name("ASCIIHexDecode"), Name("Crypt")}, Boolean(false), Real(2), NewReference(9, 0)}
+	for fi, fo := range filters {
+		for pi, po := range append([]Object{nil}, odd...) {
+			cases++
+			sd := Dict{}
+			if fo != nil {
+				sd["Filter"] = fo
+			}
+			if po != nil {
+				sd["DecodeParms"] = po
+			}
+			res := c08Check(fmt.Sprintf("filter#%d %s parms#%d %s", fi, b2Short(fo), pi, b2Short(po)), sd, hexBody)
+			for _, f := range res.fails {
+				// (GetFilters used to report wrongly typed /Filter entries and /DecodeParms values
+				// with errors that are not malformed-file errors: repaired by fix d844fc8.)
+				t.Errorf("B2-FAIL %s", f)
+			}
+		}
+	}
+	c08Goroutines(t, goroutines)
+	_ = skipped
+	t.Logf("B2-CASES %d", cases)
+}
+
+// c08FilterWellTyped: absent, a name, or an array of names (references resolve to null in this harness).
+func c08FilterWellTyped(fo Object) bool {
+	switch x := fo.(type) {
+	case nil, Name:
+		return true
+	case Array:
+		for _, e := range x {
+			if _, ok := e.(Name); !ok {
+				return false
+			}
+		}
+		return true
+	}
+	return false
+}
+
+// c08ParmsWellTyped: absent or null; a dictionary beside a single filter name; an array of
+// dictionaries and nulls beside an array of names.
+func c08ParmsWellTyped(fo, po Object) bool {
+	switch x := po.(type) {
+	case nil, Reference:
+		return true
+	case Dict:
+		_, ok := fo.(Name)
+		return ok || fo == nil
+	case Array:
+		if _, ok := fo.(Array); !ok && fo != nil {
+			return false
+		}
+		for _, e := range x {
+			switch e.(type) {
+			case nil, Dict, Reference:
+			default:
+				return false
+			}
+		}
+		return true
+	}
+	return false
+}
+
+// ---- C08: the budget as a function of the raw length, and what decoders allocate under it ----
+
+// c08JPEG assembles a JPEG stream: SOI, COM segments of pad bytes in total (0: none), an optional Adobe
+// APP14 segment, a quantisation table of ones, the frame header, Huffman tables (DC 0 and AC 0, each
+// with the single code "0" for the symbol 0: DC difference 0, end of block) unless noTables, then the
+// scans, each followed by data zero bytes (every block is one or two zero bits), and EOI.
+type c08JPEG struct {
+	sof      byte   // 0xC0 baseline, 0xC1 extended sequential, 0xC2 progressive
+	w, h     int    // frame dimensions
+	hv       []byte // sampling factors (H<<4 | V) per component
+	adobe    int    // transform value of the APP14 segment, -1: no such segment
+	split    bool   // one scan per component instead of interleaved scans
+	noTables bool
+	pad      int
+	data     int
+}
+
+func (j c08JPEG) build() []byte {
+	var b bytes.Buffer
+	w := func(p ...byte) { b.Write(p) }
+	w(0xFF, 0xD8)
+	for pad := j.pad; pad > 0; {
+		seg := min(pad, 2+0xFFFF)
+		if r := pad - seg; r > 0 && r < 4 {
+			seg -= 4
+		}
+		seg = max(seg, 4)
+		w(0xFF, 0xFE, byte((seg-2)>>8), byte(seg-2))
+		b.Write(make([]byte, seg-4))
+		pad -= seg
+	}
+	if j.adobe >= 0 {
+		w(0xFF, 0xEE, 0x00, 0x0E, 'A', 'd', 'o', 'b', 'e', 0x00, 0x64, 0x00, 0x00, 0x00, 0x00, byte(j.adobe))
+	}
+	w(0xFF, 0xDB, 0x00, 0x43, 0x00)
+	for range 64 {
+		w(0x01)
+	}
+	n := len(j.hv)
+	w(0xFF, j.sof, 0x00, byte(8+3*n), 0x08, byte(j.h>>8), byte(j.h), byte(j.w>>8), byte(j.w), byte(n))
+	for i, hv := range j.hv {
+		w(byte(i+1), hv, 0x00)
+	}
+	if !j.noTables {
+		w(0xFF, 0xC4, 0x00, 0x26)
+		for _, tcth := range []byte{0x00, 0x10} {
+			w(tcth, 0x01)
+			b.Write(make([]byte, 15))
+			w(0x00)
+		}
+	}
+	scan := func(comps []int, ss, se byte) {
+		w(0xFF, 0xDA, 0x00, byte(6+2*len(comps)), byte(len(comps)))
+		for _, c := range comps {
+			w(byte(c+1), 0x00)
+		}
+		w(ss, se, 0x00)
+		b.Write(make([]byte, j.data))
+	}
+	var all []int
+	for i := range j.hv {
+		all = append(all, i)
+	}
+	first := [][]int{all}
+	if j.split {
+		first = nil
+		for i := range j.hv {
+			first = append(first, []int{i})
+		}
+	}
+	if j.sof == 0xC2 {
+		for _, comps := range first {
+			scan(comps, 0, 0)
+		}
+		for i := range j.hv {
+			scan([]int{i}, 1, 63)
+		}
+	} else {
+		for _, comps := range first {
+			scan(comps, 0, 63)
+		}
+	}
+	w(0xFF, 0xD9)
+	return b.Bytes()
+}
+
+func TestB2C08Budget(t *testing.T) {
+	cases := 0
+	goroutines := runtime.NumGoroutine()
+	// the derivation: as documented, hence never above 264 MiB and monotone in the raw length
+	lens := []int64{math.MinInt64, -1, 0, 1, 2, 1023, 1024, 8191, 8192, 8193, 1<<18 - 1, 1 << 18, 1<<18 + 1, 1<<18 + 2, 300000, 1 << 19, 1 << 20, 1 << 24, 1<<28 - 1, 1 << 28, 1<<28 + 1, 1 << 32, 1 << 40,
+		math.MaxInt64/1024 - 1, math.MaxInt64 / 1024, math.MaxInt64/1024 + 1, 1 << 62, math.MaxInt64 - 1, math.MaxInt64}
+	rng := rand.New(rand.NewSource(c06Seed()))
+	for range 200 {
+		lens = append(lens, rng.Int63n(1<<uint(1+rng.Intn(62))))
+	}
+	for i, n := range lens {
+		cases++
+		got := limits.StreamBudget(n)
+		if want := c08DocBudget(n); got != want {
+			t.Errorf("B2-FAIL budget-derivation StreamBudget(%d) = %d, documented 8 MiB + min(1024 x length, 256 MiB) = %d", n, got, want)
+		}
+		if i > 0 && (n >= lens[i-1]) != (got >= limits.StreamBudget(lens[i-1])) && got != limits.StreamBudget(lens[i-1]) {
+			t.Errorf("B2-FAIL budget-derivation StreamBudget is not monotone at %d and %d", lens[i-1], n)
+		}
+	}
+	// decoders whose headers or parameters claim large dimensions, on raw data of lengths on both
+	// sides of 256 KiB (where the proportional part of the budget reaches its cap)
+	worst := 0.0
+	rawLens := []int{1 << 10, 200 << 10, 1 << 18, 1<<18 + 1, 320 << 10, 1 << 20, 3 << 20}
+	if !b2Thorough() {
+		rawLens = []int{1 << 10, 1<<18 + 1, 1 << 20, 3 << 20}
+	}
+	noise := make([]byte, 4<<20)
+	rng.Read(noise)
+	var zb bytes.Buffer
+	zw := zlib.NewWriter(&zb)
+	zw.Write(noise)
+	zw.Close()
+	type claim struct {
+		desc string
+		sd   Dict
+		body func(rawLen int) []byte
+	}
+	var claims []claim
+	for _, fr := range []c08JPEG{
+		{sof: 0xC2, w: 8720, h: 8720, hv: []byte{0x11}}, {sof: 0xC2, w: 8720, h: 8720, hv: []byte{0x11, 0x11, 0x11}}, {sof: 0xC2, w: 8000, h: 8000, hv: []byte{0x11, 0x11, 0x11, 0x11}},
+		{sof: 0xC2, w: 65535, h: 2040, hv: []byte{0x22, 0x11, 0x11}}, {sof: 0xC2, w: 1200, h: 65535, hv: []byte{0x11, 0x11, 0x11}, split: true}, {sof: 0xC2, w: 4096, h: 4096, hv: []byte{0x22, 0x11, 0x11}},
+		{sof: 0xC0, w: 8720, h: 8720, hv: []byte{0x11, 0x11, 0x11}, split: true}, {sof: 0xC0, w: 8000, h: 8000, hv: []byte{0x22, 0x11, 0x11, 0x22}, split: true}, {sof: 0xC0, w: 65535, h: 2040, hv: []byte{0x11}},
+		{sof: 0xC1, w: 65535, h: 1360, hv: []byte{0x11, 0x11, 0x11}, split: true},
+	} {
+		fr.adobe, fr.noTables, fr.data = -1, true, 4
+		claims = append(claims, claim{fmt.Sprintf("DCT SOF%d %dx%dx%d split=%v", fr.sof&15, fr.w, fr.h, len(fr.hv), fr.split), Dict{"Filter": Name("DCTDecode")}, func(rawLen int) []byte {
+			fr.pad = 0
+			fr.pad = max(0, rawLen-len(fr.build()))
+			return fr.build()
+		}})
+	}
+	for _, name := range []Name{"FlateDecode", "LZWDecode"} {
+		for _, d := range []Dict{
+			{"Predictor": Integer(15), "Columns": Integer(1 << 20), "Colors": Integer(4), "BitsPerComponent": Integer(16)},
+			{"Predictor": Integer(15), "Columns": Integer(1 << 20), "Colors": Integer(32), "BitsPerComponent": Integer(16)},
+			{"Predictor": Integer(12), "Columns": Integer(1 << 20), "Colors": Integer(60), "BitsPerComponent": Integer(16)},
+			{"Predictor": Integer(2), "Columns": Integer(1 << 20), "Colors": Integer(60), "BitsPerComponent": Integer(16)},
+			{"Predictor": Integer(2), "Columns": Integer(1 << 20), "Colors": Integer(1 << 20), "BitsPerComponent": Integer(16)},
+			{"Predictor": Integer(10), "Columns": Integer(1 << 20), "Colors": Integer(math.MaxInt32), "BitsPerComponent": Integer(8)},
+		} {
+			claims = append(claims, claim{fmt.Sprintf("%s %s", name, AsString(d)), Dict{"Filter": name, "DecodeParms": d}, func(rawLen int) []byte {
+				if name == "FlateDecode" {
+					// a valid zlib stream of incompressible data, cut or followed by further bytes
+					return append(append([]byte{}, zb.Bytes()...), noise...)[:rawLen]
+				}
+				return noise[:rawLen]
+			}})
+		}
+	}
+	for _, d := range []Dict{{"Columns": Integer(1 << 20), "K": Integer(-1)}, {"Columns": Integer(1 << 20), "K": Integer(0), "Rows": Integer(1 << 20)}, {"Columns": Integer(1 << 30), "K": Integer(4), "EncodedByteAlign": Boolean(true)}} {
+		claims = append(claims, claim{"CCITTFaxDecode " + AsString(d), Dict{"Filter": Name("CCITTFaxDecode"), "DecodeParms": d}, func(rawLen int) []byte {
+			return bytes.Repeat([]byte{0x00, 0x10, 0x01, 0x36, 0xff, 0x80, 0x4c}, rawLen/7+1)[:rawLen]
+		}})
+	}
+	// JBIG2 (embedded organisation): page information segments claiming large pages, then filler
+	for _, dim := range [][2]uint32{{65535, 65535}, {1 << 20, 1 << 12}, {23170, 23170}, {1 << 31, 1}} {
+		claims = append(claims, claim{fmt.Sprintf("JBIG2 page %dx%d", dim[0], dim[1]), Dict{"Filter": Name("JBIG2Decode")}, func(rawLen int) []byte {
+			b := []byte{0, 0, 0, 0, 48, 0, 1, 0, 0, 0, 19,
+				byte(dim[0] >> 24), byte(dim[0] >> 16), byte(dim[0] >> 8), byte(dim[0]), byte(dim[1] >> 24), byte(dim[1] >> 16), byte(dim[1] >> 8), byte(dim[1]),
+				0, 0, 0, 0, 0, 0, 0, 0, 0, 0, 0}
+			// an extension segment (type 62) carrying the filler
+			fill := max(0, rawLen-len(b)-11)
+			b = append(b, 0, 0, 0, 1, 62, 0, 1, byte(fill>>24), byte(fill>>16), byte(fill>>8), byte(fill))
+			return append(b, make([]byte, fill)...)
+		}})
+	}
+	for _, cl := range claims {
+		for _, rawLen := range rawLens {
+			cases++
+			body := cl.body(rawLen)
+			res := c08Check(fmt.Sprintf("%s raw length %d", cl.desc, len(body)), cl.sd, body)
+			for _, f := range res.fails {
+				t.Errorf("B2-FAIL %s", f)
+			}
+			worst = max(worst, res.excess)
+		}
+	}
+	c08Goroutines(t, goroutines)
+	t.Logf("largest allocation relative to the documented budget: %.3f", worst)
+	t.Logf("B2-CASES %d", cases)
+}
+
+// ---- C08: JPEG frames of every component count and sampling combination, with complete scans ----
+
+type c08FrameCase struct {
+	j  c08JPEG
+	ct int // /ColorTransform in the decode parameters, -1: absent
+}
+
+func (c c08FrameCase) String() string {
+	return fmt.Sprintf("SOF%d %dx%d hv=%x adobe=%d split=%v ColorTransform=%d", c.j.sof&15, c.j.w, c.j.h, c.j.hv, c.j.adobe, c.j.split, c.ct)
+}
+
+func c08FrameCases() []c08FrameCase {
+	rng := rand.New(rand.NewSource(c06Seed()))
+	sizes := [][2]int{{16, 16}, {1 + rng.Intn(70), 1 + rng.Intn(70)}}
+	factors := []byte{0x11, 0x12, 0x21, 0x22, 0x14, 0x41, 0x24, 0x42, 0x44}
+	var hvs [][]byte
+	for _, a := range append(factors, 0x13, 0x31, 0x10, 0x01, 0x55) {
+		hvs = append(hvs, []byte{a})
+		for _, b := range []byte{0x11, 0x22} {
+			hvs = append(hvs, []byte{a, b})
+		}
+	}
+	for _, a := range factors {
+		for _, b := range factors {
+			for _, c := range factors {
+				hvs = append(hvs, []byte{a, b, c})
+			}
+		}
+	}
+	// four components: every combination of 1 and 2, and (thorough tier) of 1, 2 and 4
+	four := factors[:4]
+	if b2Thorough() {
+		four = factors
+	}
+	for _, a := range four {
+		for _, b := range four {
+			for _, c := range four {
+				for _, d := range four {
+					hvs = append(hvs, []byte{a, b, c, d})
+				}
+			}
+		}
+	}
+	hvs = append(hvs, []byte{0x11, 0x11, 0x11, 0x11, 0x11}, []byte{0x22, 0x11, 0x11, 0x13}, []byte{0x22, 0x11, 0x31, 0x22}, []byte{})
+	var out []c08FrameCase
+	for hi, hv := range hvs {
+		for si, size := range sizes {
+			for vi, variant := range []struct {
+				sof   byte
+				split bool
+			}{{0xC0, false}, {0xC0, true}, {0xC2, false}, {0xC2, true}, {0xC1, false}} {
+				if variant.sof == 0xC1 && (hi+si)%4 != 0 {
+					continue
+				}
+				adobes := []int{-1}
+				switch len(hv) {
+				case 3:
+					adobes = []int{-1, []int{0, 1}[(hi+vi)%2]}
+				case 4:
+					adobes = []int{-1, 0, 2}
+				}
+				for _, adobe := range adobes {
+					k := hi + si + vi + adobe
+					out = append(out, c08FrameCase{c08JPEG{sof: variant.sof, w: size[0], h: size[1], hv: hv, adobe: adobe, split: variant.split, data: 160}, k%3 - 1})
+				}
+			}
+		}
+	}
+	return out
+}
+
+// TestB2C08DCTFrames decodes the frames in a child process (this test binary, started again with
+// VERIF_C08_CHILD set to the index of the first case), because a panic in a decoder's helper goroutine
+// cannot be recovered: it ends the process.  The child prints the index of each case before running
+// it; when the child dies the parent reports the case as a panic and starts another child behind it.
+func TestB2C08DCTFrames(t *testing.T) {
+	all := c08FrameCases()
+	if s := os.Getenv("VERIF_C08_CHILD"); s != "" {
+		start, _ := strconv.Atoi(s)
+		goroutines := runtime.NumGoroutine()
+		for i := start; i < len(all); i++ {
+			c := all[i]
+			fmt.Fprintf(os.Stdout, "\nC08CHILD BEGIN %d\n", i)
+			sd := Dict{"Filter": Name("DCTDecode")}
+			if c.ct >= 0 {
+				sd["DecodeParms"] = Dict{"ColorTransform": Integer(c.ct)}
+			}
+			res := c08Check(fmt.Sprintf("frame#%d %v", i, c), sd, c.j.build())
+			// the output of a format with intrinsic dimensions: one byte per pixel and component,
+			// all of them if there was no error
+			size := int64(c.j.w * c.j.h * len(c.j.hv))
+			if res.produced > size || (res.err == nil && res.produced != size) {
+				res.fails = append(res.fails, fmt.Sprintf("dct-output frame#%d %v: %d bytes, image has %d, err=%v", i, c, res.produced, size, b2ShortErr(res.err)))
+			}
+			for _, f := range res.fails {
+				fmt.Fprintf(os.Stdout, "\nC08CHILD FAIL %s\n", strings.ReplaceAll(f, "\n", " "))
+			}
+		}
+		for i := 0; i < 40 && runtime.NumGoroutine() > goroutines; i++ {
+			time.Sleep(50 * time.Millisecond)
+		}
+		if n := runtime.NumGoroutine(); n > goroutines {
+			fmt.Fprintf(os.Stdout, "\nC08CHILD FAIL goroutine-leak %d goroutines before, %d after all readers were closed\n", goroutines, n)
+		}
+		fmt.Fprintf(os.Stdout, "\nC08CHILD DONE\n")
+		return
+	}
+	exe, err := os.Executable()
+	if err != nil {
+		t.Fatalf("B2-FAIL harness cannot find the test binary: %v", err)
+	}
+	crashes := 0
+	for start := 0; start < len(all); {
+		cmd := exec.Command(exe, "-test.run", "^TestB2C08DCTFrames$", "-test.timeout", "500s")
+		cmd.Env = append(os.Environ(), "VERIF_C08_CHILD="+strconv.Itoa(start))
+		out, runErr := cmd.CombinedOutput()
+		last, done := -1, false
+		lines := strings.Split(string(out), "\n")
+		for _, l := range lines {
+			switch {
+			case strings.HasPrefix(l, "C08CHILD BEGIN "):
+				last, _ = strconv.Atoi(strings.TrimPrefix(l, "C08CHILD BEGIN "))
+			case strings.HasPrefix(l, "C08CHILD FAIL "):
+				t.Errorf("B2-FAIL %s", strings.TrimPrefix(l, "C08CHILD FAIL "))
+			case l == "C08CHILD DONE":
+				done = true
+			}
+		}
+		if done {
+			break
+		}
+		if last < start {
+			t.Fatalf("B2-FAIL harness child process did not run any case from %d on: %v: %s", start, runErr, b2Short(string(out)))
+		}
+		// the child died in case last
+		why := "no output"
+		for _, l := range lines {
+			if strings.HasPrefix(l, "panic:") || strings.HasPrefix(l, "fatal error:") || strings.Contains(l, "test timed out") {
+				why = l
+				break
+			}
+		}
+		t.Errorf("B2-FAIL panic frame#%d %v: the process died (%v): %s", last, all[last], runErr, why)
+		crashes++
+		if crashes >= 8 {
+			t.Errorf("B2-FAIL panic frames: stopped after %d crashes, %d of %d cases not run", crashes, len(all)-last-1, len(all))
+			break
+		}
+		start = last + 1
+	}
+	t.Logf("B2-CASES %d", len(all))
 }
